@@ -41,6 +41,47 @@ def _mk():
     }
 
 
+def _mk_all():
+    import magpylib as m
+
+    return {
+        "Cuboid": m.magnet.Cuboid(dimension=(1, 2, 3), polarization=(1, 2, 3)),
+        "Cylinder": m.magnet.Cylinder(dimension=(1, 2), magnetization=(1e6, 2e6, 3e6)),
+        "CylinderSegment": m.magnet.CylinderSegment(dimension=(1, 2, 1, 0, 90), polarization=(1, 2, 3)),
+        "Sphere": m.magnet.Sphere(diameter=1, polarization=(1, 2, 3)),
+        "Tetrahedron": m.magnet.Tetrahedron(vertices=[(0, 0, 0), (1, 0, 0), (0, 1, 0), (0, 0, 1)], polarization=(1, 2, 3)),
+        "Triangle": m.misc.Triangle(vertices=[(0, 0, 0), (1, 0, 0), (0, 1, 0)], polarization=(1, 2, 3)),
+        "Circle": m.current.Circle(diameter=1, current=2),
+        "Polyline": m.current.Polyline(vertices=[(0, 0, 0), (1, 0, 0)], current=2),
+        "Dipole": m.misc.Dipole(moment=(1, 2, 3)),
+        "Sensor": m.Sensor(pixel=[(0, 0, 0), (1, 0, 0)]),
+    }
+
+
+def _malformed():
+    bads = [(1, 2), "abc", [[1, 2, 3]] * 2 + [[1, 2]], [1, 2, 3, 4]]
+    out = []
+    for label, attrs in (("Cuboid", ("dimension", "polarization", "magnetization", "position")), ("Cylinder", ("dimension", "magnetization", "polarization")),
+                         ("CylinderSegment", ("dimension",)), ("Sphere", ("diameter", "polarization")), ("Tetrahedron", ("vertices", "magnetization")),
+                         ("Triangle", ("vertices", "polarization")), ("Circle", ("diameter", "current")), ("Polyline", ("vertices", "current")),
+                         ("Dipole", ("moment",)), ("Sensor", ("pixel", "position", "handedness"))):
+        for attr in attrs:
+            for bad in bads:
+                if attr in ("diameter", "current") and not isinstance(bad, str):
+                    bad = (1, 2)
+                if label == "Cylinder" and attr == "dimension" and bad == (1, 2):
+                    continue  # a valid Cylinder dimension
+                out.append((label, attr, bad))
+    # de-duplicate
+    seen, res = set(), []
+    for x in out:
+        k = (x[0], x[1], repr(x[2]))
+        if k not in seen:
+            seen.add(k)
+            res.append(x)
+    return res
+
+
 def _doc(label, v):
     """(must_accept, must_reject) formulas of the documented format"""
     z = [toz(x) for x in v]
@@ -140,6 +181,22 @@ def _concrete(C):
         except MagpylibBadUserInput:
             got = False
         checks.append((f"Polyline.vertices with {nverts} vertices accepted={want}", got == want, {"kind": "polyline-count", "n": nverts, "want": want}))
+    # malformed values must raise the input error and leave EVERY attribute of the object the identical object as before
+    # (also the dependent ones: polarization <-> magnetization)
+    for label, attr, bad in _malformed():
+        obj = _mk_all()[label]
+        before = {k: v for k, v in vars(obj).items()}
+        try:
+            setattr(obj, attr, bad)
+            how = "accepted"
+        except MagpylibBadUserInput:
+            how = "rejected"
+        except Exception as e:  # noqa
+            how = f"internal {type(e).__name__}"
+        after = vars(obj)
+        changed = [k for k in set(before) | set(after) if after.get(k, None) is not before.get(k, None)]
+        ok = how == "rejected" and not changed
+        checks.append((f"{label}.{attr} = {bad!r}: rejected and object unchanged", ok, {"kind": "malformed", "label": label, "attr": attr, "bad": repr(bad)}))
     for name, ok, rp in checks:
         C.paths += 1
         if ok:
@@ -161,6 +218,19 @@ def replay(spec):
             return getattr(obj, attr) is not None, f"{spec['label']} = None stored {getattr(obj, attr)!r}"
         except Exception as e:  # noqa
             return True, f"{spec['label']} = None raised {type(e).__name__}"
+    if k == "malformed":
+        obj = _mk_all()[spec["label"]]
+        bad = eval(spec["bad"])  # noqa: S307  (literal written by this harness)
+        before = dict(vars(obj))
+        try:
+            setattr(obj, spec["attr"], bad)
+            how = "accepted"
+        except MagpylibBadUserInput:
+            how = "rejected"
+        except Exception as e:  # noqa
+            how = f"internal {type(e).__name__}"
+        changed = [kk for kk in set(before) | set(vars(obj)) if vars(obj).get(kk, None) is not before.get(kk, None)]
+        return how != "rejected" or bool(changed), f"{spec['label']}.{spec['attr']} = {spec['bad']}: {how}; attributes replaced: {changed or 'none'}"
     if k == "polyline-count":
         pl = m.current.Polyline(vertices=[(0, 0, 0), (1, 0, 0)], current=1)
         try:
